@@ -653,6 +653,15 @@ func insertSeparatorsAt(integer string, sep rune, positions []int, fromRight boo
 				// left of this position.
 				continue
 			}
+		} else {
+			// Positions count from the start of the
+			// string, of which i chunks are gone.
+			if i > 0 {
+				n -= positions[i-1]
+			}
+			if n >= utf8.RuneCountInString(s) {
+				break
+			}
 		}
 
 		pos := 0
